@@ -231,6 +231,12 @@ def _builtin_corpus():
         # wake-up between the loop's clear-up and its next poll; hand-over racing exit
         cs.append(_mk("corpus-wake-window-%s" % be, be, 1, 8, ["wwx", "", "ww"], "rand 7 30 0 0"))
         cs.append(_mk("corpus-handover-exit-%s" % be, be, 1, 8, ["hx", "", "hh"], "rand 11 30 0 0"))
+        # a second exit request from a foreign thread stores WAKE over a pending EXIT (the hypothesis keeps_ranked of
+        # exit_returns_bounded_interference excludes exactly this; the wake-up write that follows re-promotes it)
+        for k in (3, 5, 9, 14):
+            cs.append(_mk("corpus-double-exit-%s-%d" % (be, k), be, 1, 8, ["x", "", "wx"], "rand %d 40 0 0" % k))
+            cs.append(_mk("corpus-double-exit-cb-%s-%d" % (be, k), be, 1, 8, ["wx", "", "wwx"], "rand %d 40 0 0" % (k + 20),
+                          cbw=["x", "x"]))
         cs.append(_mk("corpus-late-handover-%s" % be, be, 1, 8, ["x", "", "h"],
                       "list - 0 0 0 0 0 0 0 0 1 1 1 1 1 1 1 1 1 1 1 1 1 1 1 1 2 2 2 2 2 2 2 2 2 2 2 2"))
     # registration failure in on_wake (poll back-end at capacity)
